@@ -66,6 +66,7 @@ type oblResult struct {
 	proved  bool
 	tries   int
 	seconds float64
+	skipped bool // escalation skipped because enough violations were already found
 }
 
 var failedSoFar int32
@@ -107,7 +108,8 @@ func solveEscalating(o *Obligation, tier string, seed int) oblResult {
 		cases   bool
 	}{{4 * mult, seed, false}, {8 * mult, seed, true}, {20 * mult, seed + 1, false}, {20 * mult, seed + 1, true}} {
 		if tries > 0 && atomic.LoadInt32(&failedSoFar) >= 3 && tier != "thorough" {
-			break // enough violations to report: do not spend the escalation budget on the rest
+			// enough violations to report: do not spend the escalation budget on the rest
+			return oblResult{o: o, res: r, proved: false, tries: tries, seconds: time.Since(start).Seconds(), skipped: true}
 		}
 		tries++
 		if step.cases {
@@ -344,6 +346,11 @@ func cmdCheck(args []string) int {
 			if len(samples) < 12 {
 				samples = append(samples, map[string]interface{}{"obligation": name, "kind": r.o.Kind, "clause": r.o.Clause, "solver": r.res.Solver, "seconds": round3(r.res.Seconds)})
 			}
+			continue
+		}
+		if r.skipped && !*writeBaseline {
+			undecided = append(undecided, name+" (not escalated: other violations already found)")
+			counted--
 			continue
 		}
 		if !inBaseline[clauseKey(name)] && !*writeBaseline && len(inBaseline) > 0 {
